@@ -7,6 +7,14 @@ from __future__ import division
 
 import numpy as np
 from ..fprint import CountFingerprint, diff_counts_dict
+from ..util import E3FPBitsValueError
+
+
+def _check_bits(fp1, fp2):
+    if fp1.bits != fp2.bits:
+        raise E3FPBitsValueError(
+            "Fingerprints must have same number of bits."
+        )
 
 
 def tanimoto(fp1, fp2):
@@ -23,6 +31,7 @@ def tanimoto(fp1, fp2):
     -------
     float : Tanimoto coefficient.
     """
+    _check_bits(fp1, fp2)
     try:
         intersect = np.intersect1d(
             fp1.indices, fp2.indices, assume_unique=True
@@ -55,6 +64,7 @@ def soergel(fp1, fp2):
     -------
 
     """
+    _check_bits(fp1, fp2)
     if not (
         isinstance(fp1, CountFingerprint) and isinstance(fp2, CountFingerprint)
     ):
@@ -89,6 +99,7 @@ def dice(fp1, fp2):
     -------
     float : Dice coefficient.
     """
+    _check_bits(fp1, fp2)
     try:
         intersect = np.intersect1d(
             fp1.indices, fp2.indices, assume_unique=True
@@ -112,6 +123,7 @@ def cosine(fp1, fp2):
     -------
     float : Cosine similarity.
     """
+    _check_bits(fp1, fp2)
     try:
         dot = sum(v * fp2.get_count(k) for k, v in fp1.counts.items())
         root_norm = (
@@ -137,6 +149,7 @@ def pearson(fp1, fp2):
     -------
     float : Pearson correlation.
     """
+    _check_bits(fp1, fp2)
     try:
         dot = sum(v * fp2.get_count(k) for k, v in fp1.counts.items())
         return (dot / fp1.bits - fp1.mean() * fp2.mean()) / (
